@@ -5,7 +5,7 @@
    prefix length k of EVERY script, every list of rows, the primary file holds an allowed
    state.  One flush is one atomic write in this model. *)
 From Coq Require Import List ZArith NArith Bool.
-From TF Require Import Base Query Index DB IO proofs.IOP.
+From TF Require Import Base Query Index DB IO proofs.IOP proofs.PlanP.
 Import ListNotations.
 
 Theorem C12_crash_atomic : forall old p k,
@@ -22,6 +22,14 @@ Proof. exact crash_states_prefixes. Qed.
 Theorem C12_insert_keeps_old : forall old rows k,
   exists rest, w_disk (run_steps (world_of old) (firstn k (script_of old (PlAppend rows)))) = old ++ rest.
 Proof. exact crash_insert_keeps_old. Qed.
+(* in terms of the database itself: for EVERY operation of the API from EVERY state and EVERY crash index, the file
+   holds the database model's contents before the operation, its contents after it, or (insert) old plus a prefix of
+   the appended rows *)
+Theorem C12_operation_crash : forall E C norm s o k, (is_insert o = true -> forallb nan_free_point (st_rows s) = true) ->
+  let old := st_rows s in let new := st_rows (fst (step E C norm s o)) in
+  let d := w_disk (run_steps (world_of old) (firstn k (script_of old (plan_of o old new)))) in
+  d = old \/ d = new \/ exists added j, new = old ++ added /\ d = old ++ firstn j added.
+Proof. exact operation_crash_old_or_new. Qed.
 Example C12_nonvacuous : exists old p k, p = PlRewrite [] /\ old <> [] /\
   w_disk (run_steps (world_of old) (firstn k (script_of old p))) = [].
 Proof. exact crash_example. Qed.
@@ -30,3 +38,4 @@ Print Assumptions C12_crash_atomic.
 Print Assumptions C12_crash_states.
 Print Assumptions C12_crash_states_are_prefixes.
 Print Assumptions C12_insert_keeps_old.
+Print Assumptions C12_operation_crash.
